@@ -9,6 +9,9 @@ Import ListNotations.
 Local Open Scope string_scope.
 
 Definition expected_pins_C06 : list (string * string) := [
+  ("kernel/mem_util.go:<declarations>", "53f5592cd108866f");
+  ("kernel/mem_util.go:Memcopy", "196461509d2cd071");
+  ("kernel/mem_util.go:Memset", "f8b1d2241d553612");
   ("kernel/mm/vmm/fault_amd64.go:<declarations>", "c2e97ef43f828195");
   ("kernel/mm/vmm/fault_amd64.go:generalProtectionFaultHandler", "9d8ddc769766f934");
   ("kernel/mm/vmm/fault_amd64.go:installFaultHandlers", "7ab76346b170647f");
